@@ -148,6 +148,14 @@ func runC06(c *Ctx) {
 		{gmtls.TLS_ECDHE_RSA_WITH_AES_128_GCM_SHA256, "rsa", gmtls.VersionTLS12}, {gmtls.TLS_ECDHE_RSA_WITH_AES_256_GCM_SHA384, "rsa", gmtls.VersionTLS12},
 		{gmtls.TLS_ECDHE_ECDSA_WITH_AES_128_CBC_SHA, "ec", gmtls.VersionTLS10}, {gmtls.TLS_ECDHE_ECDSA_WITH_AES_128_GCM_SHA256, "ec", gmtls.VersionTLS12},
 		{gmtls.TLS_ECDHE_RSA_WITH_CHACHA20_POLY1305, "rsa", gmtls.VersionTLS12}, {gmtls.TLS_ECDHE_ECDSA_WITH_CHACHA20_POLY1305, "ec", gmtls.VersionTLS12},
+		// the rest of gmtls's suite table (a coverage audit of the quick workload showed that RC4, 3DES, the SHA-256 CBC
+		// MAC, AES-256-GCM with plain RSA and the ECDSA CBC variants were never negotiated): every row of the table is a
+		// record-protection configuration of its own
+		{gmtls.TLS_ECDHE_ECDSA_WITH_AES_256_GCM_SHA384, "ec", gmtls.VersionTLS12}, {gmtls.TLS_ECDHE_ECDSA_WITH_AES_128_CBC_SHA256, "ec", gmtls.VersionTLS12},
+		{gmtls.TLS_ECDHE_ECDSA_WITH_AES_256_CBC_SHA, "ec", gmtls.VersionTLS10}, {gmtls.TLS_RSA_WITH_AES_256_GCM_SHA384, "rsa", gmtls.VersionTLS12},
+		{gmtls.TLS_RSA_WITH_AES_128_CBC_SHA256, "rsa", gmtls.VersionTLS12}, {gmtls.TLS_ECDHE_RSA_WITH_3DES_EDE_CBC_SHA, "rsa", gmtls.VersionTLS10},
+		{gmtls.TLS_RSA_WITH_3DES_EDE_CBC_SHA, "rsa", gmtls.VersionTLS10}, {gmtls.TLS_RSA_WITH_RC4_128_SHA, "rsa", gmtls.VersionTLS10},
+		{gmtls.TLS_ECDHE_RSA_WITH_RC4_128_SHA, "rsa", gmtls.VersionTLS10}, {gmtls.TLS_ECDHE_ECDSA_WITH_RC4_128_SHA, "ec", gmtls.VersionTLS10},
 	}
 	for ti, ts := range tsuites {
 		for _, ver := range []uint16{gmtls.VersionTLS10, gmtls.VersionTLS11, gmtls.VersionTLS12} {
@@ -182,6 +190,9 @@ func runC06(c *Ctx) {
 			}
 		}
 	}
+	// (SSL 3.0 is not in the matrix: gmtls implements it on the server side only — its own client refuses a ServerHello
+	// below TLS 1.0, as crypto/tls does — so no pair of available endpoints can complete it; C15's blind scripted client
+	// drives the server's SSL 3.0 hello path.)
 	// standard-TLS servers with every client-certificate policy, a certificate-bearing gmtls client and tickets on (so the
 	// second connection of the configuration resumes a session that was set up with a client certificate)
 	for ai, auth := range auths[1:] {
